@@ -16,6 +16,7 @@ CONSTANTS
   CloseConn = FALSE
   HasFallback = FALSE
   AllowClose = TRUE
+  AllowDo = TRUE
   IdleCollects = 0
   RtoChanges = 0
   DeadlineTicks = FALSE
@@ -29,6 +30,7 @@ INVARIANT WritesBounded
 INVARIANT RoutedByID
 INVARIANT ConnOwnership
 INVARIANT GoroutinesGone
+INVARIANT DoNotStuck
 PROPERTY ClosedStartsRefused
 PROPERTY RtoSnapshot
 ACTION_CONSTRAINT PrintEdge
